@@ -1,4 +1,5 @@
 import Sympler.Basic
+import Sympler.Gen.SmartListGen
 /-!
 # Executable model of `SmartList<T>` (C15)
 
@@ -36,13 +37,13 @@ structure Params where
   deriving Repr, DecidableEq
 
 /-- Production values `#define CHUNK_LEN 65536`, `#define CHUNK_SH 16`. -/
-def Params.production : Params := ⟨16, 65536⟩
+def Params.production : Params := ⟨Gen.SmartList.chunkSh, Gen.SmartList.chunkLen⟩
 
 /-- `#define SLOT2CHUNKID(slot) (slot >> CHUNK_SH)` -/
-def slot2chunk (p : Params) (slot : Nat) : Nat := slot >>> p.chunkSh
+def slot2chunk (p : Params) (slot : Nat) : Nat := Gen.SmartList.slot2chunk p.chunkSh p.chunkLen slot
 
 /-- `#define SLOT2INDEX(slot) (slot & (CHUNK_LEN-1))` -/
-def slot2index (p : Params) (slot : Nat) : Nat := slot &&& (p.chunkLen - 1)
+def slot2index (p : Params) (slot : Nat) : Nat := Gen.SmartList.slot2index p.chunkSh p.chunkLen slot
 
 /-- A memory address of an entry: (chunk id, index in the chunk). -/
 abbrev Addr := Nat × Nat
